@@ -34,14 +34,18 @@ def c05(tier, seed):
     models = [{"module": "DQImpl", "tag": "nest", "invariants": INV,
                "constants": consts(nodes=1 if quick else 2, enq=3, depth=5, ops={"al", "rl"} | QOPS, nest=nest if quick else nest | {"al", "pu"})},
               {"module": "DQImpl", "tag": "recycle", "invariants": INV,
-               "constants": consts(nodes=1, enq=4 if quick else 5, depth=2, ops={"al"} | QOPS, nest={"nq", "eq"})}]
+               "constants": consts(nodes=1, enq=4 if quick else 5, depth=2, ops={"al"} | QOPS, nest={"nq", "eq"})},
+              # takeEvent + dispatch(queuedEvent), also from inside a listener of such a dispatch and of a processing call
+              {"module": "DQImpl", "tag": "takedispatch", "invariants": INV,
+               "constants": consts(events=(1, 2), nodes=1 if quick else 2, enq=2 if quick else 3, disp=2 if quick else 3, depth=3 if quick else 4,
+                                   ops={"al", "rl", "nq", "td", "tk", "po", "pa", "eq"}, nest={"td", "nq", "rl"} if quick else {"td", "nq", "rl", "po", "eq"})}]
     worlds = [world("dq_single_val", threading=0, arg=0),
               world("dq_single_val_getevent_str", threading=0, arg=0, mode=3, key=1, fraction=0.3),     # key derived by a getEvent policy from a movable argument
               world("dq_multi_cref_str", threading=1, arg=1, key=1, fill="0xFF", fraction=0.3),
               world("dq_multi_val_getevent_decoy", threading=1, arg=0, mode=5, key=0, fraction=0.15),     # enqueue(first, args...) through a policy that ignores `first`
               world("dq_spin_val_hash", threading=2, arg=0, key=3, fill="0x00", fraction=0.15, callback=1)]
     if not quick:
-        worlds += [world("dq_multi_ref_incl_clang17", threading=1, arg=2, mode=1, key=2, compiler="clang++", std="c++17", opt="-O2", fraction=0.2),
+        worlds += [world("dq_multi_ref_incl_clang17", threading=1, arg=2, mode=1, key=2, compiler="clang++", std="c++17", opt="-O2", fraction=0.2, only_tags=["nest", "recycle"]),
                    world("dq_single_val_getevent", threading=0, arg=0, mode=3, key=4, fraction=0.2)]
     return {"interp": "harness/dq_interp.cpp", "trace_module": "TraceDQ", "models": models, "worlds": worlds,
             "nontrivial_key": "nested",
